@@ -102,6 +102,16 @@ class GeneralInstanceGenerator(InstanceGenerator):
         self.allow_recirculation = allow_recirculation
         self.name_suffix = name_suffix
 
+        if (
+            not allow_less_jobs_than_machines
+            and self.num_jobs_range[1] < self.num_machines_range[0]
+        ):
+            raise ValidationError(
+                "The maximum number of jobs is smaller than the minimum "
+                "number of machines, so no instance with at least as many "
+                "jobs as machines can be generated."
+            )
+
         if seed is not None:
             random.seed(seed)
 
@@ -117,12 +127,23 @@ class GeneralInstanceGenerator(InstanceGenerator):
         self, num_jobs: int | None = None, num_machines: int | None = None
     ) -> JobShopInstance:
         if num_jobs is None:
-            num_jobs = random.randint(*self.num_jobs_range)
+            min_num_jobs, max_num_jobs = self.num_jobs_range
+            if not self.allow_less_jobs_than_machines:
+                # At least as many jobs as the smallest number of machines.
+                min_num_jobs = max(min_num_jobs, self.num_machines_range[0])
+            num_jobs = random.randint(min_num_jobs, max_num_jobs)
 
         if num_machines is None:
             min_num_machines, max_num_machines = self.num_machines_range
             if not self.allow_less_jobs_than_machines:
-                min_num_machines = min(num_jobs, max_num_machines)
+                # At most as many machines as jobs.
+                max_num_machines = min(num_jobs, max_num_machines)
+                if max_num_machines < min_num_machines:
+                    raise ValidationError(
+                        "There are fewer jobs than the minimum number of "
+                        "machines, which is not allowed when "
+                        "`allow_less_jobs_than_machines` attribute is False."
+                    )
             num_machines = random.randint(min_num_machines, max_num_machines)
         elif (
             not self.allow_less_jobs_than_machines and num_jobs < num_machines
